@@ -129,7 +129,7 @@ pub fn profile_for(prop: &str, thorough: bool) -> Profile {
         huge: matches!(prop, "C03" | "C04" | "C08" | "C10" | "C12" | "C13"),
         huge_burst: prop == "C08",
         burst_gets_only: matches!(prop, "C12" | "C13"),
-        mid: matches!(prop, "C03" | "C04" | "C08" | "C10"),
+        mid: matches!(prop, "C03" | "C04" | "C08" | "C10" | "C12"),
         big_universe: matches!(prop, "C12" | "C13" | "C08"),
     };
     match prop {
@@ -145,6 +145,9 @@ pub fn profile_for(prop: &str, thorough: bool) -> Profile {
         "C03" => {
             p.w.burst = 1;
             p.w.fresh_lookup = 2;
+            // (half of the concurrent cases are synced after every operation: there the
+            // lock-step model also follows caches with ttl/tti, and the loss oracle applies)
+            p.sync_every_op_some = true;
             p.cap = CapMode::Mixed;
             p.w.insert_batch = 3;
             p.w.warm_insert = 6;
@@ -246,6 +249,7 @@ pub fn profile_for(prop: &str, thorough: bool) -> Profile {
             p.max_ops = if thorough { 200 } else { 70 };
         }
         "C14" => {
+            p.w.handle = 8;
             p.w.burst = 4;
             p.burst_sizes = vec![130, 300, 700, 1400];
             p.w.hot_gets = 2;
@@ -635,7 +639,7 @@ pub fn build_case(p: &Profile, rc: RawCfg, raw_ops: Vec<RawOp>) -> Case {
                 ops.push(Op::Get { k: kmap(k) });
             }
             RawOp::InsertBatch { items, n } => {
-                if kind == Kind::Sync && !sync_with_expiry {
+                if kind == Kind::Sync && !sync_with_expiry && !(every && (ttl.is_some() || tti.is_some())) {
                     // every third batch writes the same one or two keys repeatedly (a queued
                     // write superseded by another one before maintenance applies either),
                     // after making them popular enough to be admitted
